@@ -41,7 +41,7 @@ func (c c07Cfg) String() string {
 
 func c07Run(rec *evid.Rec, f fataler, cfg c07Cfg) {
 	var viol []mon.V
-	w := &World{rec: rec, cfg: WorldCfg{Monitors: mon.Of("rs-gc", "promotion-rule", "canary-confinement", "create-eligible", "no-panic", "status-function"), Property: "C07"}, H: mon.NewHistory(), RSSeen: map[string]bool{}, RolesSynced: map[string]bool{}, Facts: map[string]int{}, lastSyncAt: map[string]time.Time{}, Det: true}
+	w := &World{rec: rec, cfg: WorldCfg{Monitors: mon.Of("rs-gc", "promotion-rule", "canary-confinement", "create-eligible", "no-panic", "status-function", "canary-latch"), Property: "C07"}, H: mon.NewHistory(), RSSeen: map[string]bool{}, RolesSynced: map[string]bool{}, Facts: map[string]int{}, lastSyncAt: map[string]time.Time{}, Det: true}
 	w.OnViolation = func(vs []mon.V) { viol = append(viol, vs...) }
 	w.C = sim.New(sim.Options{AffinityMode: cfg.Affinity})
 	for i := 0; i < cfg.Nodes; i++ {
@@ -215,6 +215,16 @@ func c07Run(rec *evid.Rec, f fataler, cfg c07Cfg) {
 		}
 	}
 	retention := func() {
+		// "deleted only once it reports no pods": in these scenarios every pod of the failed set sits, Running, on an
+		// eligible former canary node - as long as one of them exists (not terminating) the set reports it and must stay
+		if w.C.ERS(k.Namespace, crs) == nil {
+			for _, p := range w.C.Pods() {
+				if p.Labels[oracle.LabelRSName] == crs && p.DeletionTimestamp == nil && p.Status.Phase == corev1.PodRunning {
+					viol = append(viol, mon.V{Property: "C07", Monitor: "rollback", Sig: "C07/rollback/failed-set-deleted-while-its-pods-run", Detail: fmt.Sprintf("failed replica set %s was deleted while its pod %s still runs on %s", crs, p.Name, oracle.NodeOf(p))})
+					break
+				}
+			}
+		}
 		// while younger than two minutes the failed replica set must still exist
 		if w.C.Now().Before(failedAt.Add(2*time.Minute-time.Second)) && w.C.ERS(k.Namespace, crs) == nil {
 			viol = append(viol, mon.V{Property: "C07", Monitor: "rollback", Sig: "C07/rollback/failed-set-gone-before-two-minutes", Detail: fmt.Sprintf("failed replica set %s no longer exists %s after it failed", crs, w.C.Now().Sub(failedAt))})
